@@ -32,4 +32,3 @@ func (s *Selector) GetSeries(ctx context.Context, shard, numShards int) ([]engst
 	}
 	return out, nil
 }
-
